@@ -30,6 +30,7 @@ import io
 import json
 import os
 import pathlib
+import random as pyrandom
 import re
 import tempfile
 import warnings
@@ -57,7 +58,10 @@ RULE = ("sequences of 2-4 documents in mixed syntaxes (nt, nquads, turtle, n3, t
         "property keys without generalized_rdf) and, in N3, labels inside / outside / across formulae; non-trivial = some blank-node label string is used by two different parse calls or equals the "
         "id of a node already in the target; distinct = distinct (sink, init, formats, abstract documents); per-axis counts "
         "of the surface audit (design.d/C12.md) are the axis.* entries of generator_distribution")
-ASSUMPTIONS = ["BNode() ids (uuid4) differ from each other and from every id already present in the target (Lean: WF)",
+ASSUMPTIONS = ["BNode() ids (uuid4) differ from each other and from every id already present in the target (Lean: WF) — checked on "
+               "every case by a direct probe (clause fresh-id: ids minted across random.seed(k) / random.setstate() are pairwise "
+               "distinct and not in the target) and by a stream that re-seeds / restores the global random state between the "
+               "parse calls of a history",
                "caller-requested sharing / naming (bnode_context=, one N-Quads parser object used again, preserve_bnode_ids=True, "
                "skolemize=True) replaces the merge by exactly what was asked for (Lean: caller_shared_context_shares_exactly, "
                "preserve_bnode_ids_is_verbatim, skolemize_no_blank_nodes); a bnode_context dict starts empty",
@@ -189,7 +193,7 @@ def _gen_style(rng, share=0.3):
     st["route"] = rng.choice(ROUTES) if rng.random() < share else None      # how the document reaches parse()
     st["fmtarg"] = rng.choice(FMTARGS) if rng.random() < share else None    # format= by alias / left to guessing
     st["jl"] = rng.choice(JL_MODES) if rng.random() < share else None       # JSON-LD document shape
-    for k in ("typekw", "propattr", "path", "plugin", "viewdefault", "jlopts"):
+    for k in ("typekw", "propattr", "path", "plugin", "viewdefault", "jlopts", "nodeidattr", "nodeattr", "typednode"):
         st[k] = rng.random() < share
     return st
 
@@ -334,6 +338,16 @@ def _gen_doc(rng, sink, idx, pool, earlier, init_bn, share=0.3, ctxcase=False):
                 continue
             for _k in range(rng.randint(0, 2)):
                 quads.append([a, pred(), obj(), g])
+        elif fmt == "xml" and rng.random() < 0.3:
+            # a labelled node referred to as an object, with plain-literal statements about it (one per predicate): RDF/XML can
+            # spell that  <e:p rdf:nodeID="x" e:q="…"/>  (empty property element with rdf:nodeID AND property attributes);
+            # the label is used again elsewhere, so a parser that makes a new node there is seen
+            x = lab()
+            quads.append([subj(), pred(), x, g])
+            for pk in rng.sample(PRED_I, rng.randint(1, 2)):
+                quads.append([x, "i%d" % pk, rng.choice(["l0", "l3"]), g])
+            if rng.random() < 0.7:
+                quads.append([subj(), pred(), x, g] if rng.random() < 0.5 else [x, pred(), "i%d" % rng.choice(OBJ_I), g])
         else:
             quads.append([subj(), pred(), obj(), g])
     if fmt == "trix" and all(q[3] == "-" for q in quads):
@@ -421,8 +435,11 @@ def gen_case(rng, tier, i):
         for d in docs:
             (d.get("opts") or {}).pop("pre", None)
     fresh = rng.randrange(len(docs)) if rng.random() < 0.5 else None
+    # the application re-seeds / restores the global `random` state between parse calls (random.seed(k) per input,
+    # pytest-randomly, fork()ed workers): BNode() ids must not depend on it
+    reseed = rng.choice(["seed0", "restore", "seedidx"]) if rng.random() < share / 2 else None
     return {"sink": sink, "init": init, "docs": docs, "fresh": fresh, "predict": rng.random() < 0.5, "union": union,
-            "reuse": reuse}
+            "reuse": reuse, "reseed": reseed}
 
 
 # ---------------------------------------------------------------- running the implementation
@@ -783,7 +800,44 @@ def _predicted_ids(case, pi):
 
 
 def run_impl(case):
+    """(the global `random` state of the worker is put back afterwards: the re-seeding stream changes it)"""
+    st = pyrandom.getstate()
+    try:
+        return _run_impl(case)
+    finally:
+        pyrandom.setstate(st)
+
+
+def _reseed(case, saved, idx):
+    """what the application does to the global `random` module before parse call #idx"""
+    mode = case.get("reseed")
+    if mode == "seed0":
+        pyrandom.seed(0)
+    elif mode == "seedidx":
+        pyrandom.seed(idx % 2)
+    elif mode == "restore":
+        pyrandom.setstate(saved)
+
+
+def _freshness_probe(case, saved, target_ids, viol, stats):
+    """the recorded assumption behind the Lean model's uuid supply (WF), checked directly: ids minted by BNode() across
+    re-seedings / restorations of the global `random` state are pairwise distinct and distinct from every id in the target"""
+    ids = []
+    for k in range(3):
+        _reseed({"reseed": case.get("reseed") or ("seed0", "restore", "seedidx")[k % 3]}, saved, k)
+        ids += [str(BNode()), str(BNode())]
+    stats["freshness_probe_ids"] = stats.get("freshness_probe_ids", 0) + len(ids)
+    if len(set(ids)) != len(ids):
+        viol.append(f"fresh-id: BNode() handed out the same id twice across a re-seeding / restoration of the global random state: "
+                    f"{sorted(i for i in set(ids) if ids.count(i) > 1)[:2]}")
+    hit = set(ids) & target_ids
+    if hit:
+        viol.append(f"fresh-id: BNode() handed out an id that is already in the target: {sorted(hit)[:2]}")
+
+
+def _run_impl(case):
     kind = case["sink"]
+    saved = pyrandom.getstate()
     target = _mk_sink(kind, case.get("union"))
     init_bn = {}
 
@@ -845,6 +899,9 @@ def run_impl(case):
         opts = _eff_opts(doc)
         before, _ = _quads_of(target)
         err = "ok"
+        if case.get("reseed"):
+            _reseed(case, saved, idx)
+            stats["axis.random_state." + case["reseed"]] = stats.get("axis.random_state." + case["reseed"], 0) + 1
         try:
             _parse(target, kind, into, fmt, text, doc["style"], _bnode_preds(doc), plugins, stats, opts, ctxs)
         except core.CaseTimeout:
@@ -925,8 +982,9 @@ def run_impl(case):
         if case.get("reuse"):
             doc = {**doc, "style": {**doc["style"], "plugin": True, "route": None, "fmtarg": None}}
         res = []
-        for _ in range(2):
+        for _k in range(2):
             t = _mk_sink(kind, case.get("union"))
+            _reseed(case, saved, 0)
             try:
                 _parse(t, kind, None, doc["fmt"], text, doc["style"], _bnode_preds(doc), plugins, None, _eff_opts(doc))
             except Exception as e:
@@ -958,6 +1016,8 @@ def run_impl(case):
             viol.append(f"fresh-shared: document {fi} ({doc['fmt']}) parsed into two fresh targets shares blank node(s) "
                         f"{sorted(map(str, b0 & b1))[:3]}")
         stats["fresh_pairs"] = 1
+    if "reseed" in case:        # (every generated case; the stored witnesses of repaired findings keep their own clause)
+        _freshness_probe(case, saved, {str(x) for q in _quads_of(target)[0] for x in q if isinstance(x, BNode)}, viol, stats)
     shared = [s for s, who in used.items() if len(who) > 1]
     if any(-1 in used[s] for s in shared):
         stats["label_eq_existing_id"] = 1
@@ -984,6 +1044,12 @@ def run_impl(case):
             if any(q[1] == "i30" for q in d["quads"]) and not st.get("nocoll"):
                 stats["axis.jsonld.@list"] = stats.get("axis.jsonld.@list", 0) + 1
         if d["fmt"] == "xml":
+            for kk in ("nodeidattr", "nodeattr", "typednode"):
+                if st.get(kk):
+                    stats["axis.rdfxml.spelling_" + kk] = stats.get("axis.rdfxml.spelling_" + kk, 0) + 1
+            if st.get("nodeidattr") and any(q[2][0] in "nr" and any(x[0] == q[2] and x[2] in ("l0", "l3") for x in d["quads"])
+                                            for q in d["quads"]):
+                stats["axis.rdfxml.nodeID_with_property_attributes"] = stats.get("axis.rdfxml.nodeID_with_property_attributes", 0) + 1
             if any(q[1] == "i30" for q in d["quads"]) and not st.get("nocoll"):
                 stats["axis.rdfxml.collection_or_first_rest"] = stats.get("axis.rdfxml.collection_or_first_rest", 0) + 1
             if st.get("propattr") and na:
@@ -1204,6 +1270,8 @@ def shrink(case):
         yield {**case, "predict": False}
     if case.get("reuse"):
         yield {**case, "reuse": False}
+    if case.get("reseed"):
+        yield {**case, "reseed": None}
     if case.get("union"):
         yield {**case, "union": False}
     for i in range(len(docs)):
